@@ -1,0 +1,14 @@
+//go:build verif
+
+package authboss
+
+import "net/http"
+
+// VerifPendingClientStateEvents is a hook for the /verif replay harness (only
+// built with the tag "verif"): it returns the session and cookie events that
+// are queued on the request's ClientStateResponseWriter and not yet flushed,
+// so a replay can observe their order relative to storage and event calls.
+func VerifPendingClientStateEvents(w http.ResponseWriter) (session, cookie []ClientStateEvent) {
+	c := MustClientStateResponseWriter(w)
+	return c.sessionStateEvents, c.cookieStateEvents
+}
